@@ -102,6 +102,9 @@ func parseCase(line string) (nk int, progs [][]op, sched []int, mode int, ok boo
 	if !d || nk < 1 || nk > 4 {
 		return
 	}
+	if mode == modeWriters && nk > 3 {
+		return // key 3 is reserved for `sched` lines
+	}
 	for _, ps := range strings.Split(f[2], ";") {
 		var p []op
 		if ps != "-" {
